@@ -21,6 +21,18 @@ claimed = {
  "C06": dict(sec="7 C06",
    text="Proof (loop-free handler, all sizes and limits) that a DATA block longer than MaxMessageBytes is never passed to Deliver and that the session continues in READY with an empty envelope.",
    note="assumed: ReadDotBytes returns the block it read; bytes.Buffer.Bytes returns the slice it was built from"),
+ "C07": dict(sec="7 C07",
+   text="Proof, per operation and for every store state satisfying the representation invariant (which every operation is proved to preserve, i.e. for every history), that the memory store behaves as the ordered-mailbox model: ids are the decimal index, fresh and never reused, GetMessages returns exactly the mailbox's messages oldest-first (count, membership, order), GetMessage/MarkSeen/RemoveMessage of an id that does not exist answer storage.ErrNotExist (never (nil,nil) or success), removal deletes exactly the named key, other mailboxes are untouched (frame); and that the file store's list logic does the same over the index file's content before and after each operation (ghost index: ids and seen flags in order): getMessage finds the first match or ErrNotExist, 'latest' is the last entry, removeMessage removes exactly the first match and shifts the rest up keeping order, AddMessage appends as last entry and keeps every earlier entry, MarkSeen of a missing id is ErrNotExist.  Both back-ends are checked against the same storage.Store interface contract.",
+   note="assumed: gob round trip (readIndex is an assumed contract: the k-th decoded record has the exported fields of the k-th encoded message; writeIndex's content clauses are assumed, its file-system protocol is verified), file newMessage (cap loop) and file VisitMailboxes are assumed contracts, generateID uniqueness, sort.Slice, map iteration (D6), strconv.Itoa injective, locks are no-ops sequentially (interleavings are C09)"),
+ "C08": dict(sec="7 C08",
+   text="Proof for the memory store that with a cap the mailbox never holds more than cap messages after a delivery, that exactly the oldest entries are evicted (every survivor is newer than every evicted message), that without a cap nothing is evicted, and that every cap-evicted message is reported to the size enforcer and to listeners (capEvicted); proof for the file store that the index written by AddMessage never lists more than cap entries.  The size enforcer's own loop (container/list, goroutine rendez-vous) is not under contract.",
+   note="assumed: file newMessage cap loop (assumed contract), channel rendez-vous with the enforcer goroutine (D2/D3); the enforcer's accounting loop is NOT verified — only that every removal path now reports to it"),
+ "C10": dict(sec="7 C10",
+   text="Proof that the file store keeps no state between operations: every store method builds its mailbox handle from scratch (mbox(): not loaded, empty list, index path a deterministic function of the mail path and the mailbox name) and every result and effect is stated over the index file's content (ghost index) before and after the operation, so a fresh Store on the same path is indistinguishable; with C07's file obligations: order, ids and seen flags are those of the index file.",
+   note="assumed: gob round trip (readIndex assumed), id uniqueness across a restart within one second (generateID), message bodies (.raw files) are not modelled beyond existence"),
+ "C11": dict(sec="7 C11",
+   text="Proof of the crash invariant R1 'the mailbox index is absent or a complete stream' after every file-system mutation (os.Create, Encode/Write, Flush, Rename, Remove, RemoveAll, MkdirAll) inside writeIndex, removeMessage, purge and AddMessage, over a ghost file system in which a file is incomplete from creation until a successful Flush and rename/unlink are atomic; the index is only ever replaced by renaming a complete temporary file over it.",
+   note="assumed: process death not power loss (no fsync reasoning), rename/unlink atomic, raw-file paths differ from the index path (assumed clause), R2 (every listed message has its complete .raw) and 'pre- or post-state' (A) are NOT decided; cap eviction followed by a crash is not analysed"),
  "C12": dict(sec="7 C12",
    text="Proof of the decision logic: the visitor DoScan passes to VisitMailboxes calls RemoveMessage exactly for the messages whose Date is before the cutoff (count and, in order, mailbox and id of each, via the store's ghost removal log) and for no other; with a retention period <= 0 Start never scans and removes nothing; whenever Start returns the shutdown channel is closed exactly once (Join is released).  'While mail is being delivered' and 'stops promptly' are schedule / liveness statements and are not decided.",
    note="assumed: time.Time.Before is a pure function of two instants, Message getters pure, Store.VisitMailboxes applies the visitor to lists of existing messages (interface contract; refined by the stores when they come under contract), select/channels nondeterministic (D3)"),
@@ -30,6 +42,9 @@ claimed = {
  "C14": dict(sec="7 C14",
    text="Proof, for every request and manager state, that each REST v1 handler and each web-UI mailbox handler makes exactly the one manager call it is named after, with the canonical mailbox name and the id from the URL, changes nothing else (ghost call log of message.Manager), answers 404 exactly when the manager says ErrNotExist, copies every metadata field of the list answer index by index, and cannot dereference nil; that StoreManager.GetMessage / SourceReader refine the Manager contract 'a result or an error, never neither' given the Store interface contract; and that each Go-client operation sends the method its route is registered for and a JSON body where the handler decodes one.",
    note="assumed: net/http, encoding/json, io.Copy, mux.Vars deliver the decoded path segments; the Store interface contract (GetMessage: message xor error) is ASSUMED here until both back-ends are verified against it (C07) - the memory store's GetMessage of a missing id returns (nil,nil), which is where the web-UI nil dereference comes from; URL escaping / routing of names with URL-significant characters is not decided; client.ListMailboxWithContext is not under contract (a JSON null element would be dereferenced)"),
+ "C16": dict(sec="7 C16",
+   text="Proof of emission counts and identities: Deliver emits exactly one stored event per successful AddMessage carrying the returned id and the mailbox; the memory store emits exactly one deleted event for an explicit remove (with that id and mailbox), one per message for purge, one per cap-evicted message; the file store emits one per removed message and one per purged message.  The ordering half of the property (a listener never runs for the next event before the previous finished) is about goroutine scheduling of AsyncEventBroker.Emit and is not decided.",
+   note="assumed: AsyncEventBroker.Emit is an assumed contract (the engine logs the call; its loop starts one goroutine per listener), retention's deletes go through RemoveMessage (C12), size-limit eviction in the enforcer goroutine is not under contract"),
  "C17": dict(sec="7 C17",
    text="Proof of the Go side for MAIL and RCPT: a recipient / sender is accepted only if the hook's last answer was not deny and (it was allow, or it was defer / absent and policy accepts); deny leaves envelope and state unchanged.",
    note="assumed: hook results are arbitrary (Lua semantics not modelled); Emit's loop and the Lua glue are not yet under contract"),
@@ -37,13 +52,8 @@ claimed = {
 
 pending = {
  "C02": "data-path contracts (stores, POP3, HTTP handlers) not built yet; see DESIGN.md section 7",
- "C07": "store contracts not built yet; see DESIGN.md section 7",
- "C08": "store contracts not built yet; see DESIGN.md section 7",
  "C09": "monitor-invariant obligations not built yet; see DESIGN.md section 7",
- "C10": "file-store contracts not built yet; see DESIGN.md section 7",
- "C11": "ghost file system not built yet; see DESIGN.md section 7",
  "C15": "hub contracts not built yet; see DESIGN.md section 7",
- "C16": "event-emission contracts not built yet; see DESIGN.md section 7",
  "C18": "decided by third-party HTML/CSS parsers (bluemonday, x/net/html, gorilla/css): no contract on inbucket's glue can express 'no active content' without assuming the property (DESIGN.md section 7, C18)",
  "C19": "liveness / schedule property (graceful drain, stop accepting, 'after and only after'): outside what function contracts can decide (DESIGN.md section 7, C19)",
 }
